@@ -16,7 +16,7 @@ import time
 import z3
 
 from . import solver
-from .values import (BoundMethod, Builtin, Closure, ErrStream, FmtStr, InStream, ListRef, ModuleRef, OutStream,
+from .values import (Opaque, PngWriter, BoundMethod, Builtin, Closure, ErrStream, FmtStr, InStream, ListRef, ModuleRef, OutStream,
                      SqrtVal, SymSeq, Unknown, Unsupported, conc_array, is_boolish, is_int, is_z3, seq_of_pybytes,
                      seq_of_pystr, simp, to_z3)
 
@@ -185,6 +185,8 @@ class Machine:
         self.real_mul = False
         self.facts = {}
         self.mul_seen = set()
+        self.png = None
+        self.png_resized = None
         self.fsolver = z3.Solver()
         self.fsolver.set("timeout", solver.FEAS_TIMEOUT_MS)
         self.assume(self.L >= 0)
@@ -441,6 +443,16 @@ class Machine:
             return self.n
         if name == "hdr":
             return self.hdr
+        if name in ("png_w", "png_h", "png_bitmap", "png_palette", "png_written", "png_resized_w", "png_resized_h", "png_resized"):
+            if name == "png_written":
+                return self.png is not None
+            if name == "png_resized":
+                return self.png_resized is not None
+            if name.startswith("png_resized_"):
+                return self.png_resized[0 if name.endswith("w") else 1] if self.png_resized else -1
+            if self.png is None:
+                raise Unsupported("no PNG was written on this path")
+            return {"png_w": self.png["width"], "png_h": self.png["height"], "png_bitmap": self.png["bitmap"], "png_palette": self.png["palette"]}[name]
         raise KeyError(name)
 
     def lookup(self, name, env):
@@ -479,10 +491,15 @@ class Machine:
             return consts[name]
         if name in self.ctx.module_funcs(self.unit["module"]):
             return self.ctx.module_funcs(self.unit["module"])[name]
-        if name in ("sys", "os", "math", "codecs", "argparse"):
+        if name in ("sys", "os", "math", "codecs", "argparse", "png", "Image"):
             return ModuleRef(name)
         if name in BUILTINS or (self.spec_mode and name in SPEC_BUILTINS):
             return Builtin(name)
+        if name in ("str", "float", "bool"):
+            return Builtin(name)
+        if name in self.ctx.module_globals(self.unit["module"]):
+            # a module-level value that is not a literal constant (DESCRIPTION, __version__ ...): only ever passed on to externals
+            return Opaque("module-global:" + name)
         raise Unsupported("unbound name %s in %s" % (name, self.unit["name"]))
 
     # --------------------------------------------------------------------------------------
@@ -901,6 +918,10 @@ class Machine:
                 if self.branch(simp(z3.And(idx >= -len(items), idx < 0)), "negidx"):
                     raise Unsupported("negative symbolic index into an object list")
                 raise RaiseEx("IndexError")
+        ckey = (tuple(id(x) for x in items), idx.get_id())
+        hit = self.ctx.objidx_cache.get(ckey)
+        if hit is not None:
+            return hit[0]
         seqs = [self.as_seq(x) for x in items]
         lens = {s.length if isinstance(s.length, int) else None for s in seqs}
         if len(lens) != 1 or None in lens:
@@ -912,7 +933,9 @@ class Machine:
             for j in range(len(seqs) - 2, -1, -1):
                 t = z3.If(idx == j, to_z3(seqs[j].elem(k)), t)
             vals.append(simp(t))
-        return SymSeq(conc_array(vals), 0, ln, seqs[0].kind)
+        res = SymSeq(conc_array(vals), 0, ln, seqs[0].kind)
+        self.ctx.objidx_cache[ckey] = (res, items, idx)    # items and idx kept alive: the key uses their identities
+        return res
 
     def do_slice(self, base, sl, env):
         if sl.step is not None:
@@ -960,6 +983,12 @@ class Machine:
             return Builtin(full)
         if isinstance(base, InStream) and node.attr == "name":
             return ("filename",)
+        if isinstance(base, Opaque) and base.what == "argparse-namespace":
+            if node.attr == "input_image":
+                return ("input-file-name",)
+            if node.attr == "output_image":
+                return ("output-file-name",)
+            raise Unsupported("option %s of the command line is not modelled" % node.attr)
         return BoundMethod(base, node.attr)
 
     def e_JoinedStr(self, node, env):
@@ -1046,7 +1075,7 @@ class Machine:
 
     def e_Call(self, node, env):
         f = self.eval(node.func, env)
-        if self.spec_mode and isinstance(f, Builtin) and f.name in ("forall", "exists"):
+        if self.spec_mode and isinstance(f, Builtin) and f.name in ("forall", "exists", "forallq"):
             return self.quantifier(f.name, node, env)
         args = [self.eval(a, env) for a in node.args]
         kwargs = {k.arg: self.eval(k.value, env) for k in node.keywords}
@@ -1059,7 +1088,9 @@ class Machine:
         if not isinstance(lam, ast.Lambda) or len(lam.args.args) != 1:
             raise Unsupported("forall(lo, hi, lambda j: ...) expected")
         name = lam.args.args[0].arg
-        if isinstance(lo_v, int) and isinstance(hi_v, int) and hi_v - lo_v <= 64:
+        if which == "forallq":
+            which = "forall"      # kept as a quantifier even over a small constant range (instantiated at symbolic indices)
+        elif isinstance(lo_v, int) and isinstance(hi_v, int) and hi_v - lo_v <= 64:
             # small constant range: expand (exact)
             parts = []
             for jv in range(lo_v, hi_v):
@@ -1177,6 +1208,9 @@ class Machine:
         for exc, cond in rw:
             if self.branch(cond, "callee-raises-%s@L%d" % (exc, line)):
                 raise RaiseEx(exc, "raised by %s (contract)" % contract["name"])
+        for exc in contract.get("may_raise", []):
+            if self.choose(2, "callee-may-raise-%s@L%d" % (exc, line)) == 1:
+                raise RaiseEx(exc, "raised by %s (contract)" % contract["name"])
         self.spec_mode += 1
         try:
             writes = [self.num(self.eval_spec(w, sub)) for w in contract.get("writes", [])]
@@ -1185,6 +1219,19 @@ class Machine:
             self.spec_mode -= 1
         for w in writes:
             self.out_append(w)
+        if "result_spec" in contract:
+            # the caller sees the result only through clauses the callee's own unit proves as postconditions
+            posts = {c["post"] for c in contract.get("ensures", [])}
+            kind = contract.get("result_kind", "list")
+            ln = self.fresh("res_len")
+            self.assume(ln >= 0)
+            res = SymSeq(self.fresh("res", "arr"), 0, ln, kind)
+            ret = self.new_list(res) if kind == "list" else res
+            sub.vars["result"] = ret
+            for clause in contract["result_spec"]:
+                if clause not in posts:
+                    raise Unsupported("result_spec clause of %s is not one of its proved postconditions: %s" % (contract["name"], clause))
+                self.assume(to_z3(self.truthy(self.eval_spec(clause, sub))), qf_also=True)
         return ret
 
     def eval_spec(self, text, env):
@@ -1258,6 +1305,27 @@ class Machine:
             return simp(z3.If(a <= b, a, b) if name == "min" else z3.If(a >= b, a, b))
         if name == "print":
             return None
+        if name.startswith("argparse."):
+            self.ctx.assumed.add("argparse: the parser returns the two positional file names (assumed external)")
+            return Opaque("argparse-parser")
+        if name == "open":
+            fname, mode = args[0], (args[1] if len(args) > 1 else "r")
+            if fname == ("input-file-name",) and mode == "rb":
+                return InStream()
+            if fname == ("output-file-name",) and mode == "wb":
+                return OutStream()
+            raise Unsupported("open(%r, %r)" % (fname, mode))
+        if name == "bytearray":
+            sq = self.as_seq(args[0])
+            if sq.kind != "bytes":
+                raise Unsupported("bytearray of a non-bytes value")
+            return self.new_list(sq.with_kind("list"))
+        if name == "png.Writer":
+            self.ctx.assumed.add("pypng: Writer(w, h, palette, bitdepth).write_array(file, a) writes a valid w x h paletted PNG when len(a) == w*h and every entry indexes the palette")
+            return PngWriter(args[0], args[1], kwargs.get("palette"), kwargs.get("bitdepth"))
+        if name == "Image.open":
+            self.ctx.assumed.add("Pillow: Image.open(...).resize((w, h)).save(...) rewrites the PNG at w x h (nearest neighbour for paletted images)")
+            return Opaque("pil-image")
         if name == "sys.exit":
             code = args[0] if args else 0
             raise RaiseEx("SystemExit", code)
@@ -1414,6 +1482,22 @@ class Machine:
                 return None
         if isinstance(recv, ErrStream) and name == "write":
             return None
+        if isinstance(recv, Opaque):
+            if recv.what == "argparse-parser":
+                return Opaque("argparse-namespace") if name == "parse_args" else None
+            if recv.what == "pil-image":
+                if name == "resize":
+                    size = args[0]
+                    self.png_resized = (self.num(size[0]), self.num(size[1]))
+                    return Opaque("pil-image")
+                return Opaque("pil-image") if name not in ("save", "close") else None
+        if isinstance(recv, PngWriter) and name == "write_array":
+            f, arr = args
+            if not isinstance(f, OutStream):
+                raise Unsupported("write_array to something that is not the output file")
+            sq = self.as_seq(arr)
+            self.png = dict(width=recv.width, height=recv.height, palette=recv.palette, bitmap=SymSeq(sq.arr, sq.off, sq.length, "list"))
+            return None
         if isinstance(recv, str) and name == "format":
             return self.format_str(recv, args)
         if isinstance(recv, str) and name == "join":
@@ -1434,6 +1518,12 @@ class Machine:
                 v = self.num(v)
                 self.heap[recv.addr] = SymSeq(z3.Store(cell.arr, simp(cell.off + cell.length), to_z3(v)), cell.off,
                                               simp(cell.length + 1), cell.kind)
+                return None
+            if name == "extend" and not isinstance(cell, list):
+                (v,) = args
+                other = self.as_seq(v)
+                r = self.seq_concat(SymSeq(cell.arr, cell.off, cell.length, "bytes"), SymSeq(other.arr, other.off, other.length, "bytes"))
+                self.heap[recv.addr] = r.with_kind(cell.kind)
                 return None
         if isinstance(recv, (SymSeq, str)) and name == "index":
             return self.str_index(recv, args, node)
@@ -1655,7 +1745,13 @@ class Machine:
                 env.vars[name] = simp(z3.If(t, to_z3(self.num(va)), to_z3(self.num(vb))))
 
     def s_With(self, node, env):
-        raise Unsupported("with statement")
+        for item in node.items:
+            v = self.eval(item.context_expr, env)
+            if not isinstance(v, (InStream, OutStream)):
+                raise Unsupported("with over something that is not a file")
+            if item.optional_vars is not None:
+                self.assign(item.optional_vars, v, env)
+        self.exec_block(node.body, env)
 
     # ---- loops
     def loop_ordinal(self, node, env):
@@ -1890,5 +1986,5 @@ class SpecFun:
 BITAT = z3.Function("BITAT", z3.IntSort(), z3.IntSort(), z3.IntSort())
 MUL = z3.Function("MUL", z3.IntSort(), z3.IntSort(), z3.IntSort())
 
-BUILTINS = {"ord", "chr", "len", "range", "int", "bytes", "min", "max", "print"}
-SPEC_BUILTINS = {"bitat", "copy", "inst", "assume", "forall", "exists", "implies", "fmt", "ite", "fill", "store", "seq", "subseq", "as_str", "as_bytes", "as_list"}
+BUILTINS = {"ord", "chr", "len", "range", "int", "bytes", "min", "max", "print", "open", "bytearray"}
+SPEC_BUILTINS = {"forallq", "bitat", "copy", "inst", "assume", "forall", "exists", "implies", "fmt", "ite", "fill", "store", "seq", "subseq", "as_str", "as_bytes", "as_list"}
